@@ -1,4 +1,6 @@
-(* C14: proofs about the model of CanonicalizePath.  No axioms are used. *)
+(* C14: proofs about the model of CanonicalizePath.
+   Everything is Qed-closed; Print Assumptions (in Properties/Properties_C14.v) reports
+   "Closed under the global context" for every property theorem. *)
 From NinjaV Require Import Base.Bytes Canon.CanonDefs Canon.CanonSpec.
 From Coq Require Import Relations.
 Local Open Scope N_scope.
@@ -900,7 +902,7 @@ Proof.
     change (sim_state [b_slash] ([], 0%nat)) with (0%nat, [b_slash]) in Hmid.
     change (length [b_slash]) with 1%nat in Hmid.
     change (spec_state 0 ([], 0%nat)) with (@nil bytes) in Hnf.
-    rewrite Hmid, Hnf.
+    unfold bytes in *. rewrite Hmid, Hnf.
     rewrite (finish_last_abs _ _ Hok Hasf Hcl).
     rewrite (nf_step_astep 0 _ _ Hok). reflexivity.
   - (* relative path *)
@@ -913,14 +915,186 @@ Proof.
     destruct Hsf as [Hsf1 Hsf2]. inversion Hsf2 as [|cl l' Hcl _]; subst.
     rewrite (app_removelast_last [] Hne) at 3.
     rewrite app_assoc, nf_snoc, fold_left_app.
-    change (@nil bytes) with (repeat dd 0) at 3. rewrite fold_dd_run, Nat.add_0_r.
+    change (fold_left nf_step (repeat dd k) [])
+      with (fold_left nf_step (repeat dd k) (repeat dd 0)).
+    rewrite fold_dd_run, Nat.add_0_r.
     rewrite <- flat_dd_run.
     destruct (sim_fold (flat (repeat dd k)) k (removelast (split_slash r)) ([], 0%nat)
                 (Forall_nil _) (Forall_nil _) Hsf1) as (Hmid & Hnf & Hok & Hasf).
     change (sim_state (flat (repeat dd k)) ([], 0%nat))
       with (0%nat, flat (repeat dd k)) in Hmid.
     change (spec_state k ([], 0%nat)) with (repeat dd k) in Hnf.
-    rewrite Hmid, Hnf.
-    rewrite (finish_last_rel k _ _ Hok Hasf Hcl).
-    rewrite (nf_step_astep k _ _ Hok). reflexivity.
+    unfold bytes in *. rewrite Hmid, Hnf.
+    pose proof (finish_last_rel k _ _ Hok Hasf Hcl) as HF.
+    pose proof (nf_step_astep k _ (last (split_slash r) []) Hok) as HN.
+    unfold bytes in *. rewrite HF, HN. reflexivity.
+Qed.
+
+(* ------------------------------------------------------------------ *)
+(** * Rendering a normal form and reading it back *)
+
+Lemma parse_path_slashfree s : Forall slashfree (snd (parse_path s)).
+Proof.
+  destruct s as [|c s]; [apply split_slash_slashfree|].
+  unfold parse_path. destruct (N.eqb c b_slash); apply split_slash_slashfree.
+Qed.
+
+Lemma parse_path_fst s : fst (parse_path s) = true <-> hd_error s = Some b_slash.
+Proof.
+  destruct s as [|c s].
+  - cbn. split; discriminate.
+  - unfold parse_path. cbn [hd_error]. destruct (N.eqb_spec c b_slash) as [->|Hc]; cbn [fst].
+    + tauto.
+    + split; [discriminate|]. intros E. inversion E. contradiction.
+Qed.
+
+(* what [nf] returns for the components of a real string *)
+Definition out_comps (n : list bytes) : Prop := normal_comps n /\ Forall slashfree n.
+
+Lemma nf_out_comps s : out_comps (nf (snd (parse_path s))).
+Proof.
+  split; [apply nf_normal_comps|apply nf_slashfree, parse_path_slashfree].
+Qed.
+
+Lemma live_nonempty c : live c -> c <> [].
+Proof. intros [He _] ->. discriminate He. Qed.
+
+Lemma out_comps_head c n : out_comps (c :: n) ->
+  exists x c', c = x :: c' /\ x <> b_slash.
+Proof.
+  intros [Hn Hsf]. apply normal_live in Hn.
+  inversion Hn as [|c1 n1 Hlive _]; subst. inversion Hsf as [|c2 n2 Hc _]; subst.
+  destruct c as [|x c']; [exfalso; exact (live_nonempty _ Hlive eq_refl)|].
+  exists x, c'. split; [reflexivity|]. intros ->. apply Hc. left. reflexivity.
+Qed.
+
+Lemma render_false_cons c n : render false (c :: n) = join_slash (c :: n).
+Proof. reflexivity. Qed.
+
+Lemma parse_render abs n : out_comps n -> n <> [] -> parse_path (render abs n) = (abs, n).
+Proof.
+  intros Hn Hne. destruct abs.
+  - rewrite render_true, parse_path_abs. rewrite split_join; [reflexivity|exact Hne|apply Hn].
+  - destruct n as [|c n']; [congruence|].
+    destruct (out_comps_head c n' Hn) as (x & c' & -> & Hx).
+    rewrite render_false_cons, join_slash_head, (parse_path_rel _ _ Hx).
+    rewrite <- join_slash_head. rewrite split_join; [reflexivity|exact Hne|apply Hn].
+Qed.
+
+Lemma parse_render_nil abs :
+  parse_path (render abs []) = (abs, [if abs then [] else [b_dot]]).
+Proof. destruct abs; reflexivity. Qed.
+
+Lemma render_inj abs n abs' n' : out_comps n -> out_comps n' ->
+  render abs n = render abs' n' -> abs = abs' /\ n = n'.
+Proof.
+  intros Hn Hn' E. apply (f_equal parse_path) in E.
+  assert (Hsingle : forall (a : bool) m, out_comps m -> m = [if a then [] else [b_dot]] -> False).
+  { intros a m [Hm _] ->. apply normal_live in Hm.
+    inversion Hm as [|c l [He Hd] _]; subst. destruct a; discriminate. }
+  destruct n as [|c n]; destruct n' as [|c' n'].
+  - rewrite !parse_render_nil in E. inversion E. auto.
+  - rewrite parse_render_nil, (parse_render abs' (c' :: n') Hn') in E by discriminate.
+    apply (f_equal snd) in E. cbn [snd] in E.
+    exfalso. apply (Hsingle abs (c' :: n') Hn'). symmetry; exact E.
+  - rewrite parse_render_nil, (parse_render abs (c :: n) Hn) in E by discriminate.
+    apply (f_equal snd) in E. cbn [snd] in E.
+    exfalso. apply (Hsingle abs' (c :: n) Hn). exact E.
+  - rewrite (parse_render abs (c :: n) Hn), (parse_render abs' (c' :: n') Hn') in E
+      by discriminate.
+    inversion E. auto.
+Qed.
+
+Lemma render_nonempty abs n : out_comps n -> render abs n <> [].
+Proof.
+  intros Hn. destruct abs; [discriminate|].
+  destruct n as [|c n']; [discriminate|].
+  destruct (out_comps_head c n' Hn) as (x & c' & -> & _).
+  rewrite render_false_cons, join_slash_head. discriminate.
+Qed.
+
+Lemma canon_render s : s <> [] ->
+  canon s = render (fst (parse_path s)) (nf (snd (parse_path s))).
+Proof. intros Hs. rewrite canon_eq_spec. apply canon_spec_render; exact Hs. Qed.
+
+(* ------------------------------------------------------------------ *)
+(** * The property theorems *)
+
+Theorem canon_empty : canon [] = [].
+Proof. reflexivity. Qed.
+
+Theorem canon_exact : forall s t, s <> [] -> t <> [] ->
+  (canon s = canon t <-> lex_equiv s t).
+Proof.
+  intros s t Hs Ht. rewrite (canon_render s Hs), (canon_render t Ht). unfold lex_equiv. split.
+  - intros E. apply render_inj in E; [|apply nf_out_comps|apply nf_out_comps].
+    destruct E as [Ea En]. split; [exact Ea|]. apply nf_complete; exact En.
+  - intros [Ea Ec]. apply nf_complete in Ec. rewrite Ea, Ec. reflexivity.
+Qed.
+
+Theorem canon_idempotent : forall s, canon (canon s) = canon s.
+Proof.
+  intros s. destruct s as [|c0 s1]; [reflexivity|].
+  rewrite (canon_render (c0 :: s1)) by discriminate.
+  set (abs := fst (parse_path (c0 :: s1))).
+  pose proof (nf_out_comps (c0 :: s1)) as Hn.
+  set (n := nf (snd (parse_path (c0 :: s1)))) in *.
+  rewrite (canon_render (render abs n)) by (apply render_nonempty; exact Hn).
+  destruct n as [|c n'] eqn:En.
+  - rewrite parse_render_nil. cbn [fst snd]. destruct abs; reflexivity.
+  - rewrite (parse_render abs (c :: n') Hn) by discriminate. cbn [fst snd].
+    rewrite nf_of_normal; [reflexivity|apply Hn].
+Qed.
+
+Theorem canon_never_longer : forall s, (length (canon s) <= length s)%nat.
+Proof.
+  intros [|c0 s1]; [cbn; lia|].
+  rewrite (canon_render (c0 :: s1)) by discriminate.
+  destruct (N.eq_dec c0 b_slash) as [->|Hc0].
+  - rewrite parse_path_abs. cbn [fst snd]. rewrite render_true. cbn [length].
+    pose proof (W_nf (split_slash s1)) as HW. rewrite W_split in HW.
+    destruct (nf (split_slash s1)) as [|c n'] eqn:En; [cbn; lia|].
+    rewrite (W_join (c :: n')) in HW by discriminate. lia.
+  - rewrite (parse_path_rel _ _ Hc0). cbn [fst snd].
+    pose proof (W_nf (split_slash (c0 :: s1))) as HW. rewrite W_split in HW.
+    destruct (nf (split_slash (c0 :: s1))) as [|c n'] eqn:En; [cbn; lia|].
+    rewrite render_false_cons.
+    rewrite (W_join (c :: n')) in HW by discriminate. lia.
+Qed.
+
+Theorem canon_keeps_root : forall s, s <> [] ->
+  (hd_error s = Some b_slash <-> hd_error (canon s) = Some b_slash).
+Proof.
+  intros s Hs. rewrite (canon_render s Hs). rewrite <- parse_path_fst.
+  pose proof (nf_out_comps s) as Hn.
+  destruct (fst (parse_path s)).
+  - rewrite render_true. cbn [hd_error]. tauto.
+  - split; [discriminate|]. intros E. exfalso.
+    destruct (nf (snd (parse_path s))) as [|c n'].
+    + cbn in E. inversion E.
+    + destruct (out_comps_head c n' Hn) as (x & c' & -> & Hx).
+      rewrite render_false_cons, join_slash_head in E. cbn [hd_error] in E.
+      inversion E. contradiction.
+Qed.
+
+Theorem canon_keeps_leading_dotdot : forall s, s <> [] ->
+  exists k l,
+    nf (snd (parse_path s)) = repeat dd k ++ l /\
+    Forall (fun c => ordinary c = true) l /\
+    canon s = render (fst (parse_path s)) (repeat dd k ++ l).
+Proof.
+  intros s Hs. destruct (nf_normal_comps (snd (parse_path s))) as (k & l & E & Hl).
+  exists k, l. split; [exact E|]. split; [exact Hl|].
+  rewrite (canon_render s Hs), E. reflexivity.
+Qed.
+
+Theorem canon_dot_iff_nothing : forall s, s <> [] ->
+  (canon s = [b_dot] <-> fst (parse_path s) = false /\ nf (snd (parse_path s)) = []).
+Proof.
+  intros s Hs. rewrite (canon_render s Hs).
+  pose proof (nf_out_comps s) as Hn. split.
+  - intros E. change [b_dot] with (render false []) in E.
+    apply render_inj in E; [exact E|exact Hn|].
+    split; [exists 0%nat, []; split; [reflexivity|constructor]|constructor].
+  - intros [-> ->]. reflexivity.
 Qed.
